@@ -468,7 +468,37 @@ func (rb *replayBin) close() {
 }
 
 // buildReplayBin compiles the harness package of pkgPath natively (go test -c -overlay).
+// timeOverlay prepares an overlay of the standard library's time package in which
+// time.Now() consults an exported hook, so that a replay can dictate the wall clock.
+func timeOverlay(tmp string, repl map[string]string) error {
+	out, err := exec.Command("go", "env", "GOROOT").Output()
+	if err != nil {
+		return err
+	}
+	goroot := strings.TrimSpace(string(out))
+	src, err := os.ReadFile(filepath.Join(goroot, "src", "time", "time.go"))
+	if err != nil {
+		return err
+	}
+	const anchor = "func Now() Time {\n"
+	if !strings.Contains(string(src), anchor) {
+		return fmt.Errorf("time.Now not found in %s", goroot)
+	}
+	patched := strings.Replace(string(src), anchor, anchor+"\tif NowHook != nil {\n\t\tif t, ok := NowHook(); ok {\n\t\t\treturn t\n\t\t}\n\t}\n", 1)
+	pf := filepath.Join(tmp, "time_go_patched.txt")
+	hf := filepath.Join(tmp, "time_hook.txt")
+	os.WriteFile(pf, []byte(patched), 0o644)
+	os.WriteFile(hf, []byte("package time\n\n// NowHook, when set, replaces the wall clock (verification replays only).\nvar NowHook func() (Time, bool)\n"), 0o644)
+	repl[filepath.Join(goroot, "src", "time", "time.go")] = pf
+	repl[filepath.Join(goroot, "src", "time", "zz_verif_hook.go")] = hf
+	return nil
+}
+
 func buildReplayBin(repo, verif string, harnessDirs []string, pkgPath string) *replayBin {
+	return buildReplayBinOpt(repo, verif, harnessDirs, pkgPath, false)
+}
+
+func buildReplayBinOpt(repo, verif string, harnessDirs []string, pkgPath string, clock bool) *replayBin {
 	rel := strings.TrimPrefix(strings.TrimPrefix(pkgPath, modPath), "/")
 	tmp, err := os.MkdirTemp("", "gosym-replay-")
 	if err != nil {
@@ -517,6 +547,12 @@ func buildReplayBin(repo, verif string, harnessDirs []string, pkgPath string) *r
 	testFile := filepath.Join(tmp, "zz_verif_replay_test.go")
 	os.WriteFile(testFile, []byte(fmt.Sprintf(replayTestSrc, pkgName, modPath)), 0o644)
 	repl[filepath.Join(repo, rel, "zz_verif_replay_test.go")] = testFile
+	if clock {
+		if err := timeOverlay(tmp, repl); err != nil {
+			rb.err = "cannot overlay the time package: " + err.Error()
+			return rb
+		}
+	}
 	ovb, _ := json.Marshal(map[string]interface{}{"Replace": repl})
 	ovPath := filepath.Join(tmp, "overlay.json")
 	os.WriteFile(ovPath, ovb, 0o644)
@@ -524,7 +560,12 @@ func buildReplayBin(repo, verif string, harnessDirs []string, pkgPath string) *r
 	// no directory on disk), then run it
 	rb.bin = filepath.Join(tmp, "replay.test")
 	rb.env = append(os.Environ(), "GOFLAGS=-mod=mod", "GOPROXY=off", "GOSUMDB=off", "GOTOOLCHAIN=local")
-	build := exec.Command("go", "test", "-c", "-vet=off", "-overlay", ovPath, "-o", rb.bin, "./"+rel)
+	buildArgs := []string{"test", "-c", "-vet=off", "-overlay", ovPath, "-o", rb.bin}
+	if clock {
+		buildArgs = append(buildArgs, "-tags", "verifclock")
+	}
+	buildArgs = append(buildArgs, "./"+rel)
+	build := exec.Command("go", buildArgs...)
 	build.Dir = repo
 	build.Env = rb.env
 	if bout, err := build.CombinedOutput(); err != nil {
@@ -551,6 +592,10 @@ func nativeReplay(repo, verif string, harnessDirs []string, replayPath string) (
 }
 
 func nativeReplayWith(cache map[string]*replayBin, repo, verif string, harnessDirs []string, replayPath string) (bool, string) {
+	return nativeReplayClock(cache, repo, verif, harnessDirs, replayPath, false, false)
+}
+
+func nativeReplayClock(cache map[string]*replayBin, repo, verif string, harnessDirs []string, replayPath string, forceClock, inner bool) (bool, string) {
 	b, err := os.ReadFile(replayPath)
 	if err != nil {
 		return false, err.Error()
@@ -563,14 +608,29 @@ func nativeReplayWith(cache map[string]*replayBin, repo, verif string, harnessDi
 	json.Unmarshal(b, &doc)
 	i := strings.LastIndex(doc.Entry, ".")
 	pkgPath, fn := doc.Entry[:i], doc.Entry[i+1:]
+	// a counterexample whose model contains wall-clock readings is first replayed with the
+	// real clock; only if that does not reproduce is it replayed with a dictated clock
+	// (that build overlays the standard library's time package and is slow)
+	hasClock := strings.Contains(string(b), "\"wallclock@")
+	if !inner && hasClock {
+		if ok, out := nativeReplayClock(cache, repo, verif, harnessDirs, replayPath, false, true); ok {
+			return true, out
+		}
+		return nativeReplayClock(cache, repo, verif, harnessDirs, replayPath, true, true)
+	}
+	clock := forceClock
+	key := pkgPath
+	if clock {
+		key += "#clock"
+	}
 	var rb *replayBin
 	if cache != nil {
-		rb = cache[pkgPath]
+		rb = cache[key]
 	}
 	if rb == nil {
-		rb = buildReplayBin(repo, verif, harnessDirs, pkgPath)
+		rb = buildReplayBinOpt(repo, verif, harnessDirs, pkgPath, clock)
 		if cache != nil {
-			cache[pkgPath] = rb
+			cache[key] = rb
 		} else {
 			defer rb.close()
 		}
